@@ -201,4 +201,87 @@ def rule_eval_dispatch(P):
     return R
 
 
-RULES = [rule_level_sign, rule_twins, rule_eval_dispatch]
+def rule_iter_advance(P):
+    """iterator_templ::next advances one free variable per step: the cursor node (U_x), the position (Z_x), the minterm entry (M_x) and the accumulated
+    edge value (ev_x) it touches all belong to the same variable and the same side (from = unprimed, to = primed); the edge value is continued from the
+    level above on the other side, and the rest of the minterm is re-initialised below"""
+    R = RuleResult("iter.advance-consistent", "in every instantiation of iterator_templ::next each advance block uses U_s(k), Z_s(k), M_s(k) and ev_s(k) of one side s; sets: continue from ev_from(k+1), restart first_unpr(k-1); primed step: from ev_from(k), restart first_unpr(k-1); unprimed step of a relation: from ev_to(k+1), restart first_pri(k); running out of steps sets atEnd")
+    fs = [f for f in P.fns.values() if "iterator_templ" in f["q"] and f["q"].endswith("::next") and f.get("cfg")]
+    if len(fs) < 3:
+        raise AnalysisBroken("iter.advance-consistent: expected ≥3 instantiations of iterator_templ::next, found %d" % len(fs))
+    for f in sorted(fs, key=lambda f: f["inst"]):
+        g = Graph(f)
+        R.functions.add(f["inst"])
+        inst = f["inst"].replace(M, "")[:50]
+        sets = [b for b in g.nodes if b.kind == "branch" and b.cond and len(b.succ) == 2 and any(c.endswith("isForSets") for c in b.cond["calls"])]
+        if len(sets) != 1:
+            raise AnalysisBroken("iter.advance-consistent: no single isForSets() test in %s" % f["inst"])
+        sb = sets[0]
+        t_edge = 1 if sb.cond.get("neg") else 0
+        set_arm = g.reach([s_ for s_, i in sb.succ if i == t_edge]) - g.reach([s_ for s_, i in sb.succ if i != t_edge])
+        blocks = [k for k in g.nodes if k.kind == "ldef" and re.fullmatch(r"U_(from|to)\((\w+)\)", _nz(k.ev.get("rhs", "")))]
+        if len(blocks) != 3:
+            raise AnalysisBroken("iter.advance-consistent: expected 3 advance blocks in %s, found %d" % (f["inst"], len(blocks)))
+        for blk in sorted(blocks, key=lambda k: k.line):
+            side, kv = re.fullmatch(r"U_(from|to)\((\w+)\)", _nz(blk.ev["rhs"])).groups()
+            in_sets = blk.id in set_arm
+            # the block: from its definition to the recursion call that ends the step
+            rec = None
+            cur = [blk.id]
+            body = []
+            seen = set()
+            while cur:
+                x = cur.pop()
+                if x in seen:
+                    continue
+                seen.add(x)
+                n_ = g.nodes[x]
+                body.append(n_)
+                if n_.kind == "call" and n_.ev["q"].split("::")[-1] in ("first_unpr", "first_pri"):
+                    rec = n_
+                    continue
+                if n_.kind == "ldef" and n_.id != blk.id and re.fullmatch(r"U_(from|to)\(\w+\)", _nz(n_.ev.get("rhs", ""))):
+                    continue
+                if n_.kind == "branch" and n_.cond and _nz(n_.cond["text"]) == blk.ev["var"]:
+                    # only the non-null arm belongs to the block
+                    t = 1 if n_.cond.get("neg") else 0
+                    cur += [s_ for s_, i in n_.succ if i == t]
+                    continue
+                cur += [s_ for s_, i in n_.succ if not (n_.kind == "branch" and n_.cond and "getSize" in n_.cond["text"] and i == 1)]
+            calls = [n_ for n_ in body if n_.kind == "call"]
+            uses = {}
+            for n_ in calls:
+                m = re.fullmatch(r"(Z|M)_(from|to)", n_.ev["q"].split("::")[-1])
+                if m:
+                    uses.setdefault(m.group(1), set()).add((m.group(2), _nz(n_.ev["args"][0])))
+            assign = [n_ for n_ in calls if n_.ev["q"].split("::")[-1] == "operator=" and re.fullmatch(r"ev_(from|to)\(.*\)", _nz(n_.ev["args"][0]))]
+            kind = "set step" if in_sets else ("primed step" if side == "to" else "unprimed step")
+            want_parent, want_rec, want_arg = {"set step": ("ev_from(%s+1)" % kv, "first_unpr", "%s-1" % kv), "primed step": ("ev_from(%s)" % kv, "first_unpr", "%s-1" % kv),
+                                               "unprimed step": ("ev_to(%s+1)" % kv, "first_pri", kv)}[kind]
+            problems = []
+            for what in ("Z", "M"):
+                if uses.get(what) != {(side, kv)}:
+                    problems.append("%s_%s(%s) expected, found %s" % (what, side, kv, sorted(uses.get(what, []))))
+            if len(assign) != 1 or _nz(assign[0].ev["args"][0]) != "ev_%s(%s)" % (side, kv):
+                problems.append("the edge value assigned is %s, expected ev_%s(%s)" % ([_nz(a.ev["args"][0]) for a in assign], side, kv))
+            elif not re.search(r"applyOp\(%s," % re.escape(want_parent), _nz(assign[0].ev["args"][1])):
+                problems.append("the edge value is continued from `%s`, expected %s" % (_nz(assign[0].ev["args"][1])[:60], want_parent))
+            if rec is None or rec.ev["q"].split("::")[-1] != want_rec or _nz(rec.ev["args"][0]) != want_arg:
+                problems.append("the rest is restarted by %s(%s,…), expected %s(%s,…)" % (rec.ev["q"].split("::")[-1] if rec else None, _nz(rec.ev["args"][0]) if rec else None, want_rec, want_arg))
+            R.paths += 1
+            iid = "%s: %s on U_%s(%s)" % (inst, kind, side, kv)
+            if not problems:
+                R.ok(iid, where(f, blk.line))
+            else:
+                R.fail(iid, where(f, blk.line), Finding(R.rule, f["file"], base_name(f["q"]), "%s:%s" % (kind.replace(" ", "-"), side), "; ".join(problems), blk.line, inst=f["inst"]))
+        R.paths += 1
+        iid = "%s: running out of steps sets atEnd" % inst
+        end = lambda k: k.kind == "call" and k.ev["q"].endswith("::setAtEnd") and _nz(k.ev["args"][0]) == "true"
+        rets = {k.id for k in g.nodes if k.kind == "ret"}
+        p_ = g.path(g.entry, lambda k: k.id == g.exit, avoid=lambda k: end(k) or k.id in rets)
+        (R.ok(iid, where(f)) if p_ is None else R.fail(iid, where(f), Finding(R.rule, f["file"], base_name(f["q"]), "at-end", "next() can fall off its loops without setAtEnd(true): the iterator keeps reporting the last assignment", f["line"], inst=f["inst"])))
+    R.require_floor(12, "advance blocks")
+    return R
+
+
+RULES = [rule_level_sign, rule_twins, rule_eval_dispatch, rule_iter_advance]
